@@ -363,7 +363,8 @@ fn gen_calls(rng: &mut Prng, small: bool) -> Vec<Value> {
     let n = rng.below(24) + 2;
     // most sequences start with an action (usually a valid one), a body filter and a buffer
     if rng.chance(3, 4) {
-        let pool = if rng.chance(5, 6) { 4 } else { ACTIONS.len() };
+        // the action whose header filters carry NUL bytes (index 3: known finding header-nul-null-pointer) is drawn rarely
+        let pool = if rng.chance(4, 5) { 3 } else if rng.chance(1, 3) { 4 } else { ACTIONS.len() };
         calls.push(json!({"op": "action_new", "json": ACTIONS[rng.below(pool)]}));
         slots.push((K::Action, false));
         if rng.chance(2, 3) {
@@ -506,7 +507,9 @@ fn gen_calls(rng: &mut Prng, small: bool) -> Vec<Value> {
                     // Rust -> C conversion of arbitrary headers: NUL in the name, in the value, in both, in neither; empty strings
                     const N: &[&str] = &["X-A", "", "X\u{0}", "\u{0}", "é", "a\u{0}b\u{0}", "Set-Cookie"];
                     const V: &[&str] = &["v", "", "\u{0}", "a\u{0}b", "é日", "x\u{0}"];
-                    let hs: Vec<Value> = (0..rng.below(5)).map(|_| json!([*rng.pick(N), *rng.pick(V)])).collect();
+                    // NUL-carrying strings (known finding header-nul-null-pointer) in a quarter of these conversions only
+                    let with_nul = rng.chance(1, 4);
+                    let hs: Vec<Value> = (0..rng.below(5)).map(|_| json!([*rng.pick(N), *rng.pick(V)])).map(|h| if with_nul { h } else { json!([h[0].as_str().unwrap().replace('\0', ""), h[1].as_str().unwrap().replace('\0', "")]) }).collect();
                     calls.push(json!({"op": "hmap_new", "headers": hs}));
                     slots.push((K::Hlist, false));
                 }
@@ -595,6 +598,16 @@ fn gen(args: &Args, emit: &mut dyn FnMut(Value)) {
             }
         }
     }
+    // fixed family of the known finding header-nul-null-pointer: a header filter whose value / name / both carry an interior NUL
+    // (JSON escape: the NUL reaches the library un-stripped), through the C API and read back
+    for (header, value) in [("X", "a\u{0}b"), ("X\u{0}Y", "v"), ("\u{0}", "\u{0}")] {
+        let action = json!({"status_code_update": null, "header_filters": [{"filter": {"action": "add", "header": header, "value": value, "id": null, "target_hash": null}, "on_response_status_codes": [], "exclude_response_status_codes": false, "rule_id": "r"}],
+            "body_filters": [], "rule_ids": ["r"], "rule_traces": [], "rules_applied": [], "log_override": null}).to_string();
+        let calls = vec![json!({"op": "action_new", "json": action}), json!({"op": "headers", "a": 0, "headers": [["Keep", "1"]], "code": 200, "add": false}), json!({"op": "hmap_read", "s": 1}), json!({"op": "hlist_free", "s": 1}), json!({"op": "action_drop", "s": 0})];
+        if let Ok(ex) = execute(&json!({"calls": calls}), true) {
+            emit(json!({"calls": ex.filled, "sizes": ex.sizes}));
+        }
+    }
     for _ in 0..args.n {
         // generate, then let the real library fill in what it produced; a sequence the executor refuses
         // (the generator's bookkeeping of slots is approximate where NULL results change the protocol) is re-drawn
@@ -639,6 +652,8 @@ struct Exec {
     leaked: i64,
     leak_detail: String,
     mismatches: Vec<String>,
+    /// nodes of returned header lists with a NULL name / value pointer for a native header carrying an interior NUL
+    nul_nodes: Vec<String>,
     tags: Vec<String>,
 }
 
@@ -716,7 +731,7 @@ unsafe fn read_hlist(mut h: *const CHeaderMap) -> Vec<(Option<String>, Option<St
 /// the C list is the reversed list; a string with an interior NUL is a NULL pointer, every other string is equal;
 /// every node / name / value pointer is a distinct allocation made during call `ci` (no shared statics).
 /// Returns the oracle argument `hdrs` ([[name len | null, value len | null] ..] in Rust order) and the owned pointers.
-fn audit_hlist(ci: usize, got: &[(Option<String>, Option<String>, *const CHeaderMap)], want: &[Header], mism: &mut Vec<String>) -> (Value, Vec<*const u8>) {
+fn audit_hlist(ci: usize, got: &[(Option<String>, Option<String>, *const CHeaderMap)], want: &[Header], mism: &mut Vec<String>, nul: &mut Vec<String>) -> (Value, Vec<*const u8>) {
     let mut want_rev: Vec<&Header> = want.iter().collect();
     want_rev.reverse();
     if got.len() != want_rev.len() {
@@ -726,6 +741,11 @@ fn audit_hlist(ci: usize, got: &[(Option<String>, Option<String>, *const CHeader
         let exp = |x: &str| if x.contains('\0') { None } else { Some(x.to_string()) };
         if *n != exp(&w.name) || *v != exp(&w.value) {
             mism.push(format!("call {ci}: header node ({:?}, {:?}) for the native header ({:?}, {:?})", n, v, w.name, w.value));
+        } else if n.is_none() || v.is_none() {
+            // exactly the known finding header-nul-null-pointer: the native header has an interior NUL, the node carries a NULL
+            // `name` / `value` pointer (never dereferenced here: read_hlist maps NULL to None) and the header is lost on the way back
+            nul.push(format!("call {ci}: the native header ({:?}, {:?}) is returned as a node with name {} / value {}", w.name, w.value,
+                if n.is_none() { "NULL" } else { "set" }, if v.is_none() { "NULL" } else { "set" }));
         }
     }
     let mut ptrs: Vec<*const u8> = Vec::new();
@@ -806,7 +826,7 @@ fn execute(case: &Value, fill: bool) -> Result<Exec, String> {
     if calls.len() >= MAX_CALLS - 2 {
         return Err("too many calls".into());
     }
-    let mut ex = Exec { filled: Vec::new(), sizes: Value::Null, results: Vec::new(), unreleased: Vec::new(), faults: Vec::new(), leaked: 0, leak_detail: String::new(), mismatches: Vec::new(), tags: Vec::new() };
+    let mut ex = Exec { filled: Vec::new(), sizes: Value::Null, results: Vec::new(), unreleased: Vec::new(), faults: Vec::new(), leaked: 0, leak_detail: String::new(), mismatches: Vec::new(), nul_nodes: Vec::new(), tags: Vec::new() };
     let mut slots: Vec<Slot> = Vec::new();
     let mut tp_calls: Vec<usize> = Vec::new();
     // requests whose remote address was set through the C API (the twin is not updated: trusted-proxies is not a
@@ -994,7 +1014,7 @@ fn execute(case: &Value, fill: bool) -> Result<Exec, String> {
                         } else {
                             let got = unsafe { read_hlist(out) };
                             let want = twin.as_mut().map(|t| t.filter_headers(to_headers(&input), code, add, None)).unwrap_or_default();
-                            let (hdrs, ptrs) = audit_hlist(ci, &got, &want, &mut ex.mismatches);
+                            let (hdrs, ptrs) = audit_hlist(ci, &got, &want, &mut ex.mismatches, &mut ex.nul_nodes);
                             oracle.push(("hdrs", hdrs));
                             result = json!({"slot": slots.len(), "owned": owned_sizes(&ptrs)});
                             slots.push(Slot { h: H::Hlist(out), released: false });
@@ -1011,7 +1031,7 @@ fn execute(case: &Value, fill: bool) -> Result<Exec, String> {
                 let arg = want.clone();
                 let out = tracked(ci, || redirectionio::http::ffi::http_headers_to_header_map(arg)) as *const CHeaderMap;
                 let got = unsafe { read_hlist(out) };
-                let (hdrs, ptrs) = audit_hlist(ci, &got, &want, &mut ex.mismatches);
+                let (hdrs, ptrs) = audit_hlist(ci, &got, &want, &mut ex.mismatches, &mut ex.nul_nodes);
                 oracle.push(("hdrs", hdrs));
                 // everything this call allocated and kept is the list: bytes still live == bytes the list owns
                 let owned_bytes: i64 = ptrs.iter().filter_map(|p| audit_size(*p)).map(|x| x as i64).sum();
@@ -1396,6 +1416,10 @@ fn run(case: &Value) -> Obs {
         o = o.fail(format!("{leaked} allocation(s) still live after the caller released every handle: {leak_detail}"), "leak");
     } else if !mism.is_empty() {
         o = o.fail(mism.join("; "), "native-mismatch");
+    } else if !second.nul_nodes.is_empty() {
+        // known finding (C18): "header lists round-trip their content … results equal those of the native API" fails for a header
+        // whose name / value has an interior NUL: it crosses the C boundary as a NULL pointer (redirectionio.h documents none)
+        o = o.fail(format!("a header with an interior NUL crosses the C boundary as a NULL pointer and is lost on the way back: {}", second.nul_nodes.join("; ")), "header-nul-null-pointer");
     }
     o
 }
